@@ -1432,13 +1432,17 @@ func init() {
 			panic(pathEnd{kind: "exit", msg: fmt.Sprintf("os.Exit(%d)", code)})
 		},
 		"fmt.Fprintf": func(m *Machine, fr *frame, pos token.Pos, args []value) value {
-			return tuple{0, iface{}}
+			return m.fprint(args[0], func() value { return fSprintf(m, fr, pos, args[1:]) })
 		},
 		"fmt.Printf": func(m *Machine, fr *frame, pos token.Pos, args []value) value {
 			return tuple{0, iface{}}
 		},
-		"fmt.Fprint":   func(m *Machine, fr *frame, pos token.Pos, args []value) value { return tuple{0, iface{}} },
-		"fmt.Fprintln": func(m *Machine, fr *frame, pos token.Pos, args []value) value { return tuple{0, iface{}} },
+		"fmt.Fprint": func(m *Machine, fr *frame, pos token.Pos, args []value) value {
+			return m.fprint(args[0], func() value { return m.sprint(variadic(args[1]), false) })
+		},
+		"fmt.Fprintln": func(m *Machine, fr *frame, pos token.Pos, args []value) value {
+			return m.fprint(args[0], func() value { return m.sprint(variadic(args[1]), true) })
+		},
 		"fmt.Print":    func(m *Machine, fr *frame, pos token.Pos, args []value) value { return tuple{0, iface{}} },
 		"fmt.Println":  func(m *Machine, fr *frame, pos token.Pos, args []value) value { return tuple{0, iface{}} },
 		"fmt.Sprint": func(m *Machine, fr *frame, pos token.Pos, args []value) value {
@@ -1544,6 +1548,22 @@ func init() {
 		"(*golang.org/x/exp/utf8string.String).RuneCount": fUtf8RuneCount,
 		"(*golang.org/x/exp/utf8string.String).At":        fUtf8At,
 	}
+}
+
+// fprint: fmt.Fprint* into a strings.Builder / bytes.Buffer appends the
+// formatted text to the modelled buffer; any other writer (stdout, stderr,
+// files) is diagnostics and is dropped.
+func (m *Machine) fprint(w value, text func() value) value {
+	if i, ok := w.(iface); ok && i.t != nil {
+		switch i.t.String() {
+		case "*strings.Builder", "*bytes.Buffer":
+			b := m.bufOf(i.v)
+			ts, _ := m.strTerms(text())
+			*b = append(*b, ts...)
+			return tuple{len(ts), iface{}}
+		}
+	}
+	return tuple{0, iface{}}
 }
 
 // sprint: fmt.Sprint adds a space between operands when neither is a string;
